@@ -404,7 +404,9 @@ pub fn gen_node(c: &GenCfg, rng: &mut Rng, level: usize, depth: usize) -> Ast {
                 Arity::One => 1,
                 Arity::Two => 2,
                 Arity::Var => {
-                    if rng.chance(1, 25) {
+                    if f == Func::Avg && rng.chance(1, 8) {
+                        0
+                    } else if rng.chance(1, 25) {
                         18 + rng.below(14)
                     } else {
                         1 + rng.below(4)
@@ -424,7 +426,13 @@ pub fn gen_node(c: &GenCfg, rng: &mut Rng, level: usize, depth: usize) -> Ast {
                     let n = match f.arity() {
                         Arity::One => 1,
                         Arity::Two => 2,
-                        Arity::Var => 1 + rng.below(3),
+                        Arity::Var => {
+                            if f == Func::Avg && rng.chance(1, 6) {
+                                0
+                            } else {
+                                1 + rng.below(3)
+                            }
+                        }
                     };
                     Ast::Call(f, pick_spelling(f, rng), (0..n).map(|_| gen_node(c, rng, 0, depth - 1)).collect())
                 }
@@ -437,7 +445,13 @@ pub fn gen_node(c: &GenCfg, rng: &mut Rng, level: usize, depth: usize) -> Ast {
                     let n = match f.arity() {
                         Arity::One => 1,
                         Arity::Two => 2,
-                        Arity::Var => 1 + rng.below(3),
+                        Arity::Var => {
+                            if f == Func::Avg && rng.chance(1, 6) {
+                                0
+                            } else {
+                                1 + rng.below(3)
+                            }
+                        }
                     };
                     Ast::Call(f, pick_spelling(f, rng), (0..n).map(|_| gen_node(c, rng, 0, depth - 1)).collect())
                 }
@@ -677,12 +691,39 @@ pub fn bombs(ev: Ev) -> Vec<String> {
         ("1-".into(), "1".into(), "".into()),
         ("2*(".into(), "1".into(), ")".into()),
         ("-(".into(), "1".into(), ")".into()),
+        // nesting in the first / last argument of multi-argument functions: work that doubles per level
+        ("min(".into(), "1".into(), ",2)".into()),
+        ("max(".into(), "1".into(), ",2)".into()),
+        ("max(2,".into(), "1".into(), ")".into()),
+        ("avg(".into(), "1".into(), ",2)".into()),
+        ("avg(2,".into(), "1".into(), ")".into()),
+        ("med(".into(), "1".into(), ",2)".into()),
+        ("med(3,".into(), "1".into(), ",2)".into()),
+        ("median(".into(), "1".into(), ",2,3)".into()),
+        ("gcd(".into(), "6".into(), ",4)".into()),
+        ("lcm(4,".into(), "6".into(), ")".into()),
+        ("pow(".into(), "1".into(), ",1)".into()),
+        ("pow(1,".into(), "1".into(), ")".into()),
+        ("mod(".into(), "7".into(), ",5)".into()),
+        ("mod(7,".into(), "5".into(), ")".into()),
+        ("log(".into(), "9".into(), ",3)".into()),
+        ("root(2,".into(), "4".into(), ")".into()),
+        ("atan2(".into(), "1".into(), ",1)".into()),
+        ("ilog(".into(), "9".into(), ",3)".into()),
+        ("sqrt(".into(), "4".into(), ")".into()),
+        ("w(".into(), "1".into(), ")".into()),
+        ("(".into(), "1".into(), ")!".into()),
+        ("(".into(), "2".into(), ")²".into()),
+        ("1+(".into(), "1".into(), ")*1".into()),
     ];
     for (open, mid, close) in depth_forms {
         let ol = open.chars().count();
         let cl = close.chars().count();
         let n = (256 - mid.len()) / (ol + cl).max(1);
-        for k in [n, n / 2, 10] {
+        for k in [n, n / 2, 10, 13, 16, 20] {
+            if k > n {
+                continue;
+            }
             v.push(format!("{}{}{}", open.repeat(k), mid, close.repeat(k)));
             // unbalanced variant
             v.push(format!("{}{}", open.repeat((256 - mid.len()) / ol.max(1)), mid));
